@@ -234,6 +234,26 @@ def cases(rng, tier):
                 style = rng.choice([0, 1, 2, 3])
                 var = fam + ".o" + (".shared" if style == 0 and rng.random() < 0.3 else "")
                 out.append((G.line("fuse_fold", fmt, var, [n, 0, k, style] + list(p), ws), ("fold", gid, j, n)))
+        # near-dogmatic, non-dyadic operands over a shared base rate: the fused uncertainty is a quotient of products of small numbers
+        # and has to be carried with RELATIVE accuracy -- an error of one ulp of 1 on u ~ 50 eps misweights the next step of the
+        # fold by per cents (seeded C07_r4A: `normalized` returning u = 1 - sum(b/s)).  u_i in [16, 4096] eps and at most three
+        # operands keep every partial result clear of the dogmatic band (0, eps].
+        for _ in range(M * 2):
+            n = rng.choice([2, 3])
+            k = 3
+            a = G.float_dist(rng, fmt, n)
+            ws = []
+            for _ in range(k):
+                u = G.round_fmt(fmt, G.EPS[fmt] * rng.uniform(16, 4096))
+                xs = [0.05 + rng.random() for _ in range(n)]
+                sx = sum(xs)
+                b = [G.round_fmt(fmt, x / sx * (1.0 - u)) for x in xs]
+                ws += b + [u] + a
+            fam = rng.choice(G.FAMS_1D)
+            gid = CROSS_GROUPS[0]; CROSS_GROUPS[0] += 1
+            for j, p in enumerate(perms_sample(rng, k, 6)):
+                style = rng.choice([0, 1, 2, 3])
+                out.append((G.line("fuse_fold", fmt, fam + ".o", [n, 0, k, style] + list(p), ws), ("fold", gid, j, n)))
     return out
 
 
